@@ -44,6 +44,7 @@ type Obligation struct {
 	Ground  string
 	Trigger string
 	Props   string // comma separated property ids this obligation is attributed to ("" = the unit's default)
+	solved  bool   // a solver pass has already decided (or given up on) this obligation
 }
 
 type FV struct {
